@@ -101,29 +101,43 @@ def upd2 (f : Nat → Nat → Int) (a d : Nat) (v : Int) : Nat → Nat → Int :
 
 def upd1 (f : Nat → Int) (k : Nat) (v : Int) : Nat → Int := fun k' => if k' = k then v else f k'
 
-/-- x/bank send of `x` (> 0) of denom `d`; fails on insufficient funds. Zero amounts are skipped by callers. -/
-def send (s : State) (src dst d : Nat) (x : Int) : Option State :=
+/-- the x/bank calls a handler makes, in order -/
+inductive BankOp where
+  | send (src dst d : Nat) (x : Int)      -- SendCoins*: fails on insufficient funds (and on a negative coin)
+  | sendPos (src dst d : Nat) (x : Int)   -- the `if amt.GT(0) { send }` idiom
+  | mint (d : Nat) (x : Int)              -- MintCoins to the vault module; a zero coin is rejected by the handler
+  | burn (d : Nat) (x : Int)              -- BurnCoins from the vault module
+  | burnPos (d : Nat) (x : Int)
+  deriving Repr
+
+def sendRaw (s : State) (src dst d : Nat) (x : Int) : Option State :=
   if x < 0 then none
   else if s.bal src d < x then none
   else
     let b1 := upd2 s.bal src d (s.bal src d - x)
     some { s with bal := upd2 b1 dst d (b1 dst d + x) }
 
-/-- send only when the amount is positive (the `if amt.GT(0)` idiom of the handlers) -/
-def sendPos (s : State) (src dst d : Nat) (x : Int) : Option State :=
-  if x > 0 then send s src dst d x else some s
-
-def mint (s : State) (d : Nat) (x : Int) : Option State :=
-  if x ≤ 0 then none      -- `mintCoin.IsZero()` is rejected by the handler; negative panics in NewCoin
+def mintRaw (s : State) (d : Nat) (x : Int) : Option State :=
+  if x ≤ 0 then none
   else some { s with bal := upd2 s.bal vm d (s.bal vm d + x), supply := upd1 s.supply d (s.supply d + x) }
 
-def burn (s : State) (d : Nat) (x : Int) : Option State :=
+def burnRaw (s : State) (d : Nat) (x : Int) : Option State :=
   if x ≤ 0 then none
   else if s.bal vm d < x then none
   else some { s with bal := upd2 s.bal vm d (s.bal vm d - x), supply := upd1 s.supply d (s.supply d - x) }
 
-def burnPos (s : State) (d : Nat) (x : Int) : Option State :=
-  if x > 0 then burn s d x else some s
+def BankOp.run (s : State) : BankOp → Option State
+  | .send a b d x => sendRaw s a b d x
+  | .sendPos a b d x => if x > 0 then sendRaw s a b d x else some s
+  | .mint d x => mintRaw s d x
+  | .burn d x => burnRaw s d x
+  | .burnPos d x => if x > 0 then burnRaw s d x else some s
+
+def runBank (s : State) : List BankOp → Option State
+  | [] => some s
+  | op :: ops => match op.run s with
+    | none => none
+    | some s1 => runBank s1 ops
 
 /-! ### arithmetic of the handlers -/
 
@@ -163,33 +177,30 @@ def otherToken (amt : Int) (dec1 dec2 : Int) : Int :=
   Dec.truncateInt (Dec.mul newAmount (Dec.ofInt dec2))
 
 /-- mint `amt` of the debt asset to the module, split the draw-down fee to the collector, rest to the user
-(msg_server.go:113-151, 535-570, 1038-1076, 1206-1244). `zeroFeePays` is what the zero-fee branch sends. -/
-def mintAndSplit (s : State) (p : Product) (user : Nat) (amt : Int) : Option State := do
-  let s ← mint s p.denomOut amt
-  if p.drawDownFee = 0 ∧ amt > 0 then
-    send s vm user p.denomOut amt
-  else
-    let share := feeOf amt p.drawDownFee
-    let s ← sendPos s vm cm p.denomOut share
-    sendPos s vm user p.denomOut (amt - share)
+(msg_server.go:113-151, 535-570, 1038-1076, 1206-1244). -/
+def mintAndSplit (p : Product) (user : Nat) (amt : Int) : List BankOp :=
+  .mint p.denomOut amt ::
+    (if p.drawDownFee = 0 ∧ amt > 0 then [.send vm user p.denomOut amt]
+     else [.sendPos vm cm p.denomOut (feeOf amt p.drawDownFee),
+           .sendPos vm user p.denomOut (amt - feeOf amt p.drawDownFee)])
 
 /-! ### record helpers -/
 
+def setBy {α : Type} (idf : α → Nat) (l : List α) (v : α) : List α :=
+  l.map fun w => if idf w = idf v then v else w
+
+def delBy {α : Type} (idf : α → Nat) (l : List α) (id : Nat) : List α := l.filter (fun w => idf w ≠ id)
+
 def findVault (s : State) (id : Nat) : Option VaultRec := s.vaults.find? (·.id = id)
 def findStable (s : State) (id : Nat) : Option StableRec := s.stables.find? (·.id = id)
-
-def setVault (l : List VaultRec) (v : VaultRec) : List VaultRec :=
-  l.map fun w => if w.id = v.id then v else w
-
-def setStable (l : List StableRec) (v : StableRec) : List StableRec :=
-  l.map fun w => if w.id = v.id then v else w
-
-def delVault (l : List VaultRec) (id : Nat) : List VaultRec := l.filter (·.id ≠ id)
+def setVault (l : List VaultRec) (v : VaultRec) : List VaultRec := setBy (·.id) l v
+def setStable (l : List StableRec) (v : StableRec) : List StableRec := setBy (·.id) l v
+def delVault (l : List VaultRec) (id : Nat) : List VaultRec := delBy (·.id) l id
 
 def updL (f : Nat → List Nat) (k : Nat) (v : List Nat) : Nat → List Nat := fun k' => if k' = k then v else f k'
 
 /-- guards common to the owner-only handlers: product known, app matches, vault exists, signer is the owner,
-vault belongs to the named product. Returns the vault after interest accrual. -/
+vault belongs to the named product. Returns the stored vault and the vault after interest accrual. -/
 def ownedVault (s : State) (p : Product) (e : Env) (from_ app prod vaultId : Nat) : Option VaultRec :=
   if p.id ≠ prod ∨ p.app ≠ app then none else
   match findVault s vaultId, e.iota with
@@ -225,52 +236,51 @@ def create (s : State) (p : Product) (e : Env) (from_ app prod : Nat) (amtIn amt
   else if s.minted prod + amtOut > p.debtCeiling then none
   else if !verifyCR p e amtIn amtOut then none
   else if amtOut ≥ 2 ^ 63 then none                                          -- `AmountOut.Int64()` panics
-  else do
-    let s ← sendPos s from_ vm p.denomIn amtIn
-    let s ← mintAndSplit s p from_ amtOut
-    let id := s.nextVault + 1
-    let v : VaultRec := { id := id, owner := from_, product := prod, amountIn := amtIn, amountOut := amtOut,
-                          interest := 0, closingFee := feeOf amtOut p.closingFee }
-    pure { s with vaults := s.vaults ++ [v], nextVault := id, length := s.length + 1,
-                  coll := upd1 s.coll prod (s.coll prod + amtIn),
-                  minted := upd1 s.minted prod (s.minted prod + amtOut),
-                  vaultIds := updL s.vaultIds prod (s.vaultIds prod ++ [id]) }
+  else
+    (runBank s (.sendPos from_ vm p.denomIn amtIn :: mintAndSplit p from_ amtOut)).map fun s1 =>
+      let id := s1.nextVault + 1
+      let v : VaultRec := { id := id, owner := from_, product := prod, amountIn := amtIn, amountOut := amtOut,
+                            interest := 0, closingFee := feeOf amtOut p.closingFee }
+      { s1 with vaults := s1.vaults ++ [v], nextVault := id, length := s1.length + 1,
+                coll := upd1 s1.coll prod (s1.coll prod + amtIn),
+                minted := upd1 s1.minted prod (s1.minted prod + amtOut),
+                vaultIds := updL s1.vaultIds prod (s1.vaultIds prod ++ [id]) }
 
 def deposit (s : State) (p : Product) (e : Env) (from_ app prod vaultId : Nat) (amt : Int) : Option State :=
   if e.esm ∨ e.breaker ∨ !p.active ∨ amt ≤ 0 then none else
   match ownedVault s p e from_ app prod vaultId with
   | none => none
   | some v =>
-    let newIn := v.amountIn + amt
-    if newIn ≤ 0 then none else do
-      let s ← sendPos s from_ vm p.denomIn amt
-      pure { s with vaults := setVault s.vaults { v with amountIn := newIn },
-                    coll := upd1 s.coll prod (s.coll prod + amt) }
+    if v.amountIn + amt ≤ 0 then none else
+      (runBank s [.sendPos from_ vm p.denomIn amt]).map fun s1 =>
+        { s1 with vaults := setVault s1.vaults { v with amountIn := v.amountIn + amt },
+                  coll := upd1 s1.coll prod (s1.coll prod + amt) }
+
+/-- the debt the withdraw handler checks the ratio against (principal only under emergency shutdown) -/
+def withdrawDebt (e : Env) (v : VaultRec) : Int :=
+  if e.esm then v.amountOut else v.amountOut + v.interest + v.closingFee
 
 def withdraw (s : State) (p : Product) (e : Env) (from_ app prod vaultId : Nat) (amt : Int) : Option State :=
   if e.breaker ∨ (e.esm ∧ e.pastCoolOff) ∨ !p.active ∨ amt ≤ 0 then none else
   match ownedVault s p e from_ app prod vaultId with
   | none => none
   | some v =>
-    let newIn := v.amountIn - amt
-    if newIn ≤ 0 then none else
-    let debt := if e.esm then v.amountOut else v.amountOut + v.interest + v.closingFee
-    if !verifyCR p e newIn debt then none else do
-      let s ← sendPos s vm from_ p.denomIn amt
-      pure { s with vaults := setVault s.vaults { v with amountIn := newIn },
-                    coll := upd1 s.coll prod (s.coll prod - amt) }
+    if v.amountIn - amt ≤ 0 then none else
+    if !verifyCR p e (v.amountIn - amt) (withdrawDebt e v) then none else
+      (runBank s [.sendPos vm from_ p.denomIn amt]).map fun s1 =>
+        { s1 with vaults := setVault s1.vaults { v with amountIn := v.amountIn - amt },
+                  coll := upd1 s1.coll prod (s1.coll prod - amt) }
 
 def draw (s : State) (p : Product) (e : Env) (from_ app prod vaultId : Nat) (amt : Int) : Option State :=
   if e.esm ∨ e.breaker ∨ !p.active ∨ amt ≤ 0 then none else
   match ownedVault s p e from_ app prod vaultId with
   | none => none
   | some v =>
-    let newOut := v.amountOut + amt
     if s.minted prod + amt ≥ p.debtCeiling then none
-    else if !verifyCR p e v.amountIn (newOut + v.interest + v.closingFee) then none else do
-      let s ← mintAndSplit s p from_ amt
-      pure { s with vaults := setVault s.vaults { v with amountOut := newOut },
-                    minted := upd1 s.minted prod (s.minted prod + amt) }
+    else if !verifyCR p e v.amountIn (v.amountOut + amt + v.interest + v.closingFee) then none else
+      (runBank s (mintAndSplit p from_ amt)).map fun s1 =>
+        { s1 with vaults := setVault s1.vaults { v with amountOut := v.amountOut + amt },
+                  minted := upd1 s1.minted prod (s1.minted prod + amt) }
 
 def repay (s : State) (p : Product) (e : Env) (from_ app prod vaultId : Nat) (amt : Int) : Option State :=
   if e.esm ∨ e.breaker ∨ amt ≤ 0 then none else
@@ -278,36 +288,29 @@ def repay (s : State) (p : Product) (e : Env) (from_ app prod vaultId : Nat) (am
   | none => none
   | some v =>
     if v.amountOut + v.interest - amt < 0 then none
-    else if amt ≤ v.interest then do
+    else if amt ≤ v.interest then
       -- the whole payment is interest: forwarded to the collector
-      let s ← send s from_ vm p.denomOut amt
-      let s ← send s vm cm p.denomOut amt
-      pure { s with vaults := setVault s.vaults { v with interest := v.interest - amt } }
+      (runBank s [.send from_ vm p.denomOut amt, .send vm cm p.denomOut amt]).map fun s1 =>
+        { s1 with vaults := setVault s1.vaults { v with interest := v.interest - amt } }
     else
-      let pay := amt - v.interest
-      let newOut := v.amountOut - pay
-      if newOut < p.debtFloor then none else do
-        let s ← send s from_ vm p.denomOut amt
-        let s ← burnPos s p.denomOut pay
-        let s ← sendPos s vm cm p.denomOut v.interest
-        pure { s with vaults := setVault s.vaults { v with amountOut := newOut, interest := 0 },
-                      minted := upd1 s.minted prod (s.minted prod - pay) }
+      if v.amountOut - (amt - v.interest) < p.debtFloor then none else
+        (runBank s [.send from_ vm p.denomOut amt, .burnPos p.denomOut (amt - v.interest),
+                    .sendPos vm cm p.denomOut v.interest]).map fun s1 =>
+          { s1 with vaults := setVault s1.vaults { v with amountOut := v.amountOut - (amt - v.interest), interest := 0 },
+                    minted := upd1 s1.minted prod (s1.minted prod - (amt - v.interest)) }
 
 def close (s : State) (p : Product) (e : Env) (from_ app prod vaultId : Nat) : Option State :=
   if e.esm ∨ e.breaker then none else
   match ownedVault s p e from_ app prod vaultId with
   | none => none
-  | some v => do
-    let total := v.amountOut + v.interest + v.closingFee
-    let s ← sendPos s from_ vm p.denomOut total
-    let s ← sendPos s vm cm p.denomOut v.interest
-    let s ← sendPos s vm cm p.denomOut v.closingFee
-    let s ← burnPos s p.denomOut v.amountOut
-    let s ← sendPos s vm from_ p.denomIn v.amountIn
-    pure { s with vaults := delVault s.vaults v.id, length := s.length - 1,
-                  coll := upd1 s.coll prod (s.coll prod - v.amountIn),
-                  minted := upd1 s.minted prod (s.minted prod - v.amountOut),
-                  vaultIds := updL s.vaultIds prod ((s.vaultIds prod).erase v.id) }
+  | some v =>
+    (runBank s [.sendPos from_ vm p.denomOut (v.amountOut + v.interest + v.closingFee),
+                .sendPos vm cm p.denomOut v.interest, .sendPos vm cm p.denomOut v.closingFee,
+                .burnPos p.denomOut v.amountOut, .sendPos vm from_ p.denomIn v.amountIn]).map fun s1 =>
+      { s1 with vaults := delVault s1.vaults v.id, length := s1.length - 1,
+                coll := upd1 s1.coll prod (s1.coll prod - v.amountIn),
+                minted := upd1 s1.minted prod (s1.minted prod - v.amountOut),
+                vaultIds := updL s1.vaultIds prod ((s1.vaultIds prod).erase v.id) }
 
 /-- `calculateUserToken`: `AmountOut·amt / AmountIn` (sdk.Int.Quo, truncated; zero divisor panics) -/
 def userToken (v : VaultRec) (amt : Int) : Option Int :=
@@ -319,43 +322,58 @@ def depositAndDraw (s : State) (p : Product) (e : Env) (from_ app prod vaultId :
   | some v0 =>
     match userToken v0 amt with
     | none => none
-    | some newAmt => do
-      let s ← deposit s p e from_ app prod vaultId amt
+    | some newAmt =>
+      match deposit s p e from_ app prod vaultId amt with
+      | none => none
       -- the second accrual happens at the same block time: nothing more accrues
-      draw s p { e with iota := some 0 } from_ app prod vaultId newAmt
+      | some s1 => draw s1 p { e with iota := some 0 } from_ app prod vaultId newAmt
 
 def stableCreate (s : State) (p : Product) (e : Env) (from_ app prod : Nat) (amt : Int) : Option State :=
-  if e.esm ∨ e.breaker ∨ p.id ≠ prod ∨ p.app ≠ app ∨ !p.isStable ∨ !p.active ∨ amt ≤ 0 then none else
-  let out := otherToken amt p.decIn p.decOut
-  if out < p.debtFloor then none
+  if e.esm ∨ e.breaker ∨ p.id ≠ prod ∨ p.app ≠ app ∨ !p.isStable ∨ !p.active ∨ amt ≤ 0 then none
+  else if otherToken amt p.decIn p.decOut < p.debtFloor then none
   else if (s.vaultIds prod).length ≥ 1 then none
-  else if s.minted prod + out ≥ p.debtCeiling then none
-  else do
-    let s ← send s from_ vm p.denomIn amt
-    let s ← mintAndSplit s p from_ out
-    let id := s.nextStable + 1
-    pure { s with stables := s.stables ++ [{ id := id, product := prod, amountIn := amt, amountOut := out }],
-                  nextStable := id,
-                  coll := upd1 s.coll prod (s.coll prod + amt),
-                  minted := upd1 s.minted prod (s.minted prod + out),
-                  vaultIds := updL s.vaultIds prod (s.vaultIds prod ++ [id]) }
+  else if s.minted prod + otherToken amt p.decIn p.decOut ≥ p.debtCeiling then none
+  else
+    (runBank s (.send from_ vm p.denomIn amt :: mintAndSplit p from_ (otherToken amt p.decIn p.decOut))).map fun s1 =>
+      let id := s1.nextStable + 1
+      { s1 with stables := s1.stables ++ [{ id := id, product := prod, amountIn := amt,
+                                            amountOut := otherToken amt p.decIn p.decOut }],
+                nextStable := id,
+                coll := upd1 s1.coll prod (s1.coll prod + amt),
+                minted := upd1 s1.minted prod (s1.minted prod + otherToken amt p.decIn p.decOut),
+                vaultIds := updL s1.vaultIds prod (s1.vaultIds prod ++ [id]) }
 
 def stableDeposit (s : State) (p : Product) (e : Env) (from_ app prod stableId : Nat) (amt : Int) : Option State :=
   if e.esm ∨ e.breaker ∨ p.id ≠ prod ∨ p.app ≠ app ∨ !p.isStable ∨ !p.active ∨ amt ≤ 0 then none else
   match findStable s stableId with
   | none => none
   | some sv =>
-    if sv.product ≠ prod then none else
-    let out := otherToken amt p.decIn p.decOut
-    if sv.amountIn + amt ≤ 0 then none
-    else if out < p.debtFloor then none
-    else if s.minted prod + out ≥ p.debtCeiling then none
-    else do
-      let s ← send s from_ vm p.denomIn amt
-      let s ← mintAndSplit s p from_ out
-      pure { s with stables := setStable s.stables { sv with amountIn := sv.amountIn + amt, amountOut := sv.amountOut + out },
-                    coll := upd1 s.coll prod (s.coll prod + amt),
-                    minted := upd1 s.minted prod (s.minted prod + out) }
+    if sv.product ≠ prod then none
+    else if sv.amountIn + amt ≤ 0 then none
+    else if otherToken amt p.decIn p.decOut < p.debtFloor then none
+    else if s.minted prod + otherToken amt p.decIn p.decOut ≥ p.debtCeiling then none
+    else
+      (runBank s (.send from_ vm p.denomIn amt :: mintAndSplit p from_ (otherToken amt p.decIn p.decOut))).map fun s1 =>
+        { s1 with stables := setStable s1.stables { sv with amountIn := sv.amountIn + amt,
+                                                            amountOut := sv.amountOut + otherToken amt p.decIn p.decOut },
+                  coll := upd1 s1.coll prod (s1.coll prod + amt),
+                  minted := upd1 s1.minted prod (s1.minted prod + otherToken amt p.decIn p.decOut) }
+
+/-- the coins a stable-mint withdrawal burns (`updatedAmount`) and returns (`tokenOutAmount`) -/
+def stableWithdrawAmounts (p : Product) (amt : Int) : Int × Int :=
+  if p.drawDownFee = 0 then (amt, otherToken amt p.decOut p.decIn)
+  else
+    let upd := amt - feeOf amt p.drawDownFee
+    if upd > 0 then (upd, otherToken upd p.decOut p.decIn) else (upd, otherToken amt p.decOut p.decIn)
+
+def stableWithdrawOps (p : Product) (from_ : Nat) (amt : Int) : List BankOp :=
+  if p.drawDownFee = 0 then
+    [.send from_ vm p.denomOut amt, .burn p.denomOut amt, .sendPos vm from_ p.denomIn (otherToken amt p.decOut p.decIn)]
+  else
+    let share := feeOf amt p.drawDownFee
+    let upd := amt - share
+    [.send from_ vm p.denomOut amt, .sendPos vm cm p.denomOut share] ++
+      (if upd > 0 then [.burn p.denomOut upd, .sendPos vm from_ p.denomIn (otherToken upd p.decOut p.decIn)] else [])
 
 def stableWithdraw (s : State) (p : Product) (e : Env) (from_ app prod stableId : Nat) (amt : Int) : Option State :=
   if e.esm ∨ e.breaker ∨ p.id ≠ prod ∨ p.app ≠ app ∨ !p.isStable ∨ amt ≤ 0 then none
@@ -363,31 +381,14 @@ def stableWithdraw (s : State) (p : Product) (e : Env) (from_ app prod stableId 
   match findStable s stableId with
   | none => none
   | some sv =>
-    if sv.product ≠ prod then none else
-    let back := otherToken amt p.decOut p.decIn
-    if sv.amountIn - back < 0 then none else do
-      let s ← send s from_ vm p.denomOut amt
-      if p.drawDownFee = 0 then do
-        let s ← burn s p.denomOut amt
-        let s ← sendPos s vm from_ p.denomIn back
-        pure { s with stables := setStable s.stables { sv with amountIn := sv.amountIn - back, amountOut := sv.amountOut - amt },
-                      coll := upd1 s.coll prod (s.coll prod - back),
-                      minted := upd1 s.minted prod (s.minted prod - amt) }
-      else do
-        let share := feeOf amt p.drawDownFee
-        let s ← sendPos s vm cm p.denomOut share
-        let upd := amt - share
-        if upd > 0 then do
-          let s ← burn s p.denomOut upd
-          let back' := otherToken upd p.decOut p.decIn
-          let s ← sendPos s vm from_ p.denomIn back'
-          pure { s with stables := setStable s.stables { sv with amountIn := sv.amountIn - back', amountOut := sv.amountOut - upd },
-                        coll := upd1 s.coll prod (s.coll prod - back'),
-                        minted := upd1 s.minted prod (s.minted prod - upd) }
-        else
-          pure { s with stables := setStable s.stables { sv with amountIn := sv.amountIn - back, amountOut := sv.amountOut - upd },
-                        coll := upd1 s.coll prod (s.coll prod - back),
-                        minted := upd1 s.minted prod (s.minted prod - upd) }
+    if sv.product ≠ prod then none
+    else if sv.amountIn - otherToken amt p.decOut p.decIn < 0 then none
+    else
+      (runBank s (stableWithdrawOps p from_ amt)).map fun s1 =>
+        { s1 with stables := setStable s1.stables { sv with amountIn := sv.amountIn - (stableWithdrawAmounts p amt).2,
+                                                            amountOut := sv.amountOut - (stableWithdrawAmounts p amt).1 },
+                  coll := upd1 s1.coll prod (s1.coll prod - (stableWithdrawAmounts p amt).2),
+                  minted := upd1 s1.minted prod (s1.minted prod - (stableWithdrawAmounts p amt).1) }
 
 def interestCalc (s : State) (e : Env) (vaultId : Nat) : Option State :=
   match findVault s vaultId, e.iota with
@@ -395,10 +396,10 @@ def interestCalc (s : State) (e : Env) (vaultId : Nat) : Option State :=
       some { s with vaults := setVault s.vaults { v with interest := v.interest + i } }
   | _, _ => none
 
-def donate (s : State) (from_ d : Nat) (amt : Int) : Option State := do
+def donate (s : State) (from_ d : Nat) (amt : Int) : Option State :=
   if amt ≤ 0 then none else
-  let s ← send s from_ vm d amt
-  pure { s with unsolicited := upd1 s.unsolicited d (s.unsolicited d + amt) }
+  (runBank s [.send from_ vm d amt]).map fun s1 =>
+    { s1 with unsolicited := upd1 s1.unsolicited d (s1.unsolicited d + amt) }
 
 def fund (s : State) (to d : Nat) (amt : Int) : Option State :=
   if amt ≤ 0 ∨ to = vm then none else
@@ -409,13 +410,12 @@ def fund (s : State) (to d : Nat) (amt : Int) : Option State :=
 to auction custody, the vault is deleted and counted as awaiting settlement; the product totals stay. -/
 def seize (s : State) (p : Product) (e : Env) (vaultId : Nat) : Option State :=
   match findVault s vaultId, e.iota with
-  | some v0, some i =>
-    if v0.product ≠ p.id ∨ i < 0 then none else do
-      let v := { v0 with interest := v0.interest + i }
-      let s ← sendPos s vm am p.denomIn v.amountIn
-      pure { s with vaults := delVault s.vaults v.id, length := s.length - 1,
-                    locked := s.locked ++ [{ vaultId := v.id, product := v.product, amountIn := v.amountIn, amountOut := v.amountOut }],
-                    vaultIds := updL s.vaultIds p.id ((s.vaultIds p.id).erase v.id) }
+  | some v, some i =>
+    if v.product ≠ p.id ∨ i < 0 then none else
+      (runBank s [.sendPos vm am p.denomIn v.amountIn]).map fun s1 =>
+        { s1 with vaults := delVault s1.vaults v.id, length := s1.length - 1,
+                  locked := s1.locked ++ [{ vaultId := v.id, product := v.product, amountIn := v.amountIn, amountOut := v.amountOut }],
+                  vaultIds := updL s1.vaultIds p.id ((s1.vaultIds p.id).erase v.id) }
   | _, _ => none
 
 /-- the product a message refers to (for `interestCalc` / `seize`: the product of the named vault) -/
@@ -507,14 +507,23 @@ instance (s : State) : Decidable (CountOk s) := by unfold CountOk; infer_instanc
 instance (s : State) (p : Nat) : Decidable (TotalsAt s p) := by unfold TotalsAt; infer_instance
 instance (cfg) (s : State) (d : Nat) : Decidable (SupplyAt cfg s d) := by unfold SupplyAt; infer_instance
 
-/-- record well-formedness: ids are unique and bounded by the counters, every record's product is configured -/
+/-- record well-formedness: ids are unique and bounded by the counters, every record's product is configured,
+vault amounts are non-negative -/
 def Wf (cfg : Nat → Option Product) (s : State) : Prop :=
-  (s.vaults.map (·.id)).Nodup ∧ (∀ v ∈ s.vaults, v.id ≤ s.nextVault ∧ (cfg v.product).isSome) ∧
+  (s.vaults.map (·.id)).Nodup ∧
+  (∀ v ∈ s.vaults, v.id ≤ s.nextVault ∧ (cfg v.product).isSome ∧
+      0 ≤ v.amountIn ∧ 0 ≤ v.amountOut ∧ 0 ≤ v.interest ∧ 0 ≤ v.closingFee) ∧
   (s.stables.map (·.id)).Nodup ∧ (∀ v ∈ s.stables, v.id ≤ s.nextStable ∧ (cfg v.product).isSome) ∧
   (∀ v ∈ s.locked, (cfg v.product).isSome)
 
+/-- C03: every open vault's principal is at least its product's debt floor, and the published principal of every
+product is at most its debt ceiling -/
+def Limits (cfg : Nat → Option Product) (s : State) : Prop :=
+  (∀ v ∈ s.vaults, ∀ p, cfg v.product = some p → p.debtFloor ≤ v.amountOut) ∧
+  (∀ k p, cfg k = some p → s.minted k ≤ p.debtCeiling)
+
 /-- the whole inductive invariant -/
 def Inv (cfg : Nat → Option Product) (s : State) : Prop :=
-  Wf cfg s ∧ CountOk s ∧ (∀ d, CustodyAt cfg s d) ∧ (∀ p, TotalsAt s p) ∧ (∀ d, SupplyAt cfg s d)
+  Wf cfg s ∧ CountOk s ∧ (∀ d, CustodyAt cfg s d) ∧ (∀ p, TotalsAt s p) ∧ (∀ d, SupplyAt cfg s d) ∧ Limits cfg s
 
 end Comdex.Vault
